@@ -829,8 +829,8 @@ func (rn *smRunner) run(b smBehaviour) {
 	}
 	signs := map[signKey]int{}
 	decides := map[[2]uint64]int{}
-	var lastEntered [2]uint64
-	haveEntered := false
+	var lastEntered, wantResume [2]uint64
+	haveEntered, haveResume := false, false
 	curView := absView{}
 
 	for i, s := range b.Steps {
@@ -859,6 +859,17 @@ func (rn *smRunner) run(b smBehaviour) {
 			hub.plan = append([]entranceResp{first}, resps...)
 			hub.extra = 0
 			hub.mu.Unlock()
+			// C10: the durable position the restarted state machine has to resume at
+			wantResume, haveResume = [2]uint64{0, 0}, false
+			if s.Op == "Restart" {
+				if sh, sr, err := st.ss.StateMachineHeightRound(context.Background()); err == nil {
+					wantResume, haveResume = [2]uint64{sh, uint64(sr)}, true
+					if _, _, _, _, err := st.fs.LoadFinalizationByHeight(context.Background(), sh); err == nil {
+						// the height was already finalized: it resumes at the first round of the next height
+						wantResume = [2]uint64{sh + 1, 0}
+					}
+				}
+			}
 			r = newSMRig(w, rn.me, st, rec, hub)
 			r.start()
 			n0 = 0
@@ -1169,6 +1180,13 @@ func (rn *smRunner) run(b smBehaviour) {
 						rn.viol(b.ID, i, "C08", "HRStrictlyIncreasing", s.Op, "entrance",
 							fmt.Sprintf("entered %d/%d after %d/%d", h, rr, lastEntered[0], lastEntered[1]))
 					}
+				}
+				if haveResume && s.Op == "Restart" {
+					if h != wantResume[0] || rr != wantResume[1] {
+						rn.viol(b.ID, i, "C10", "ResumesAtDurablePosition", s.Op, "entrance",
+							fmt.Sprintf("after restart the state machine entered %d/%d; its stores put it at %d/%d", h, rr, wantResume[0], wantResume[1]))
+					}
+					haveResume = false
 				}
 				if haveEntered && (s.Op == "Restart") {
 					if h < lastEntered[0] {
